@@ -1,7 +1,7 @@
 /-
 C19 — MFS (mutable file system): executable model of the tree / two-level caching mechanism.
 
-Transcribed from /repo/mfs/{ops,dir,file,fd,root}.go (with the `fix:` of `Mv`, see `mv`).
+Transcribed from /repo/mfs/{ops,dir,file,fd,root}.go (with the two `fix:`es of `Mv`, see `mv`).
 
   Go                                            model
   -------------------------------------------   ---------------------------------------------------
@@ -39,7 +39,7 @@ structure Meta where
 deriving DecidableEq, Repr, Inhabited
 
 inductive Err where
-  | notfound | exists_ | notdir | invalid | rootexists | isdir
+  | notfound | exists_ | notdir | invalid | rootexists | isdir | intoself
 deriving DecidableEq, Repr
 
 mutual
@@ -398,18 +398,24 @@ def mvTail (cmpNames : Bool) (sdir : List Name) (sname : Name) (ddir : List Name
   match r5.res with
   | .ok .file =>            -- _ = dstDir.Unlink(dstFname)
     mvGo cmpNames sdir sname nd ddir dname (atPath ddir (actUnlink dname) r5.l).l
-  | .ok .dir =>             -- dstDir = n; dstFname = srcFname
-    mvGo cmpNames sdir sname nd (ddir ++ [dname]) sname r5.l
+  | .ok .dir =>             -- n == srcObj: refused;  else dstDir = n; dstFname = srcFname
+    if sdir ++ [sname] = ddir ++ [dname] then ⟨.error .intoself, r5.l, none⟩
+    else mvGo cmpNames sdir sname nd (ddir ++ [dname]) sname r5.l
   | .error .notfound => mvGo cmpNames sdir sname nd ddir dname r5.l
   | .error e => ⟨.error e, r5.l, none⟩
 
-/-- `Mv(r, src, dst)`.  `cmpNames = true` is the code as found (`srcDir.name == dstDir.name`),
-`cmpNames = false` the repaired code (`srcDir == dstDir`, i.e. the same directory). -/
+/-- `Mv(r, src, dst)`.  `cmpNames = true` is the comparison as found (`srcDir.name == dstDir.name`),
+`cmpNames = false` the repaired one (`srcDir == dstDir`, i.e. the same directory).  The refusal of a move
+of a directory into itself (second `fix:`) is part of both; live objects are identified by their paths. -/
 def mv (cmpNames : Bool) (src dst : Path) (root : L) : R Unit :=
   andThen (atPath (if dst.trailing then dst.comps else dst.split.1) actIsDir root) fun _ root =>  -- dstDir
   andThen (atPath src.split.1 actIsDir root) fun _ root =>                                        -- srcDir
   andThen (atPath src.split.1 (actChild src.split.2) root) fun _ root =>       -- srcObj := srcDir.Child(srcFname)
   andThen (atPath (src.split.1 ++ [src.split.2]) actGetNode root) fun nd root =>   -- nd := srcObj.GetNode()
+  -- isSelfOrAncestor(srcObj, dstDir): a directory does not go into itself or below itself
+  if nd.kind = .dir ∧ (src.split.1 ++ [src.split.2]) <+: (if dst.trailing then dst.comps else dst.split.1) then
+    ⟨.error .intoself, root, none⟩
+  else
   mvTail cmpNames src.split.1 src.split.2 (if dst.trailing then dst.comps else dst.split.1)
     (if dst.trailing then src.split.2 else dst.split.2) nd root
 
